@@ -179,8 +179,8 @@ impl Property for C20 {
     }
     fn cases(&self, tier: Tier) -> u64 {
         match tier {
-            Tier::Quick => 400_000,
-            Tier::Thorough => 8_000_000,
+            Tier::Quick => 2_000_000,
+            Tier::Thorough => 30_000_000,
         }
     }
     fn required_labels(&self, _tier: Tier) -> Vec<&'static str> {
